@@ -17,7 +17,9 @@ Bind: code -> spec.  The cluster state is scripted over virtual time (timelines 
       TABLE request whose SCHEMA_CHANGE result goes through the real ResponseFuture and refresh_schema_and_set_result
       (schema metadata enabled and disabled) - polling whenever it likes; each poll sees the snapshot current at that
       instant and takes a small positive virtual time.  The recorded run (instant and snapshot of every poll, outcome,
-      instant of the outcome) is validated by TLC against Trace_ControlAgree.tla.
+      instant of the outcome) is validated by TLC against Trace_ControlAgree.tla.  Fault: the k-th poll is answered by
+      closing the coordinator's connection, so an exception escapes from the wait (Abort): the request's result must
+      then say that agreement was not reached.
 """
 import os
 
@@ -47,7 +49,7 @@ META = {
 INVARIANTS = ["TypeOK", "AgreementOnlyWhenUniform", "UniformIsReported", "NoAgreementOnlyAfterWait", "KeepsPolling",
               "FutureRecords"]
 WITNESSES = ["Witness_AgreeLater", "Witness_DownIgnored", "Witness_NoneCounts", "Witness_Timeout", "Witness_DenseSchedule",
-             "Witness_FutureYesNoMeta"]
+             "Witness_FutureYesNoMeta", "Witness_AbortAfterPolls"]
 MODES = ["direct", "ddl_meta", "ddl_nometa"]
 MAX_REPORT_PER_SIGNATURE = 2
 VERS = ("A", "B")
@@ -96,6 +98,18 @@ def timelines(ctx, rc):
         cuts = sorted(rng.sample(range(1, w + 3), k - 1))
         tl = [(0, rng.choice(snaps))] + [(c, rng.choice(snaps)) for c in cuts]
         cases.append((rng.choice(MODES), w, tl))
+    cases = [c + (None,) for c in cases]
+    # the wait is cut short: the k-th poll is answered by closing the coordinator's connection (after k disagreeing polls)
+    disagreeing = [s for s in snaps if not rc._uniform(s)]
+    n = 0
+    for s in disagreeing:
+        for k in ((1,) if ctx.quick else (0, 1, 2)):
+            for m in ((MODES[1 + n % 2],) if ctx.quick else MODES):
+                cases.append((m, 14 if k == 2 else 10, [(0, s)], k))
+            n += 1
+    for s in disagreeing[:6]:
+        cases.append(("direct", 10, [(0, s)], 1))
+        cases.append(("ddl_meta", 6, [(0, s)], 0))
     return cases
 
 
@@ -143,15 +157,15 @@ def run(ctx):
     hs = _harnesses([1, 2], [3])
     cases = timelines(ctx, rc)
     traces = []
-    for i, (mode, w, tl) in enumerate(cases):
-        tr, got = rc.agree_trace(hs, mode, w, tl)
+    for i, (mode, w, tl, fault) in enumerate(cases):
+        tr, got = rc.agree_trace(hs, mode, w, tl, fault)
         traces.append(tr)
         npolls = sum(1 for e in tr if e["e"] == "Poll")
         if npolls >= 2 or any(x != "up" for _, s in tl for x in s["st"]):
             ctx.nontrivial(i)
         if i % 2503 == 11:
             ctx.sample({"mode": mode, "wait_s": w * rc.TICK, "timeline": [(f * rc.TICK, s) for f, s in tl],
-                        "recorded": [{k: v for k, v in e.items()} for e in tr[1:]]})
+                        "connection_closed_at_poll": fault, "recorded": [{k: v for k, v in e.items()} for e in tr[1:]]})
     for h in hs.values():
         h.shutdown()
     timing["real_runs"] = round(time.time() - t0, 1)
@@ -194,10 +208,13 @@ def run(ctx):
         sig = rc.agree_signature(t, at)
         by_sig[sig] = by_sig.get(sig, 0) + 1
         if by_sig[sig] <= MAX_REPORT_PER_SIGNATURE:
-            mode, w, tl = cases[i]
-            ctx.violation("%s, wait %.2f s, timeline %s: the recorded run %s is not a behaviour of ControlAgree.tla (rejected at "
-                          "event %d: %s)" % (mode, w * rc.TICK, [(f * rc.TICK, s) for f, s in tl], t[1:], at, t[at]),
-                          replay={"mode": mode, "wait": w, "timeline": [[f, s] for f, s in tl], "recorded": t, "rejected_at": at},
+            mode, w, tl, fault = cases[i]
+            ctx.violation("%s, wait %.2f s, timeline %s%s: the recorded run %s is not a behaviour of ControlAgree.tla (rejected at "
+                          "event %d: %s)" % (mode, w * rc.TICK, [(f * rc.TICK, s) for f, s in tl],
+                                             "" if fault is None else ", connection closed instead of answering poll #%d" % fault,
+                                             t[1:], at, t[at]),
+                          replay={"mode": mode, "wait": w, "timeline": [[f, s] for f, s in tl], "fault_at_poll": fault,
+                                  "recorded": t, "rejected_at": at},
                           signature=sig)
     ctx.traces_validated += accepted
     ctx.note("real_runs", good)
@@ -230,7 +247,7 @@ def replay(ctx, obj):
     from harness.replay import control as rc
     hs = _harnesses([1, 2], [3])
     tl = [(f, s) for f, s in obj["timeline"]]
-    tr, got = rc.agree_trace(hs, obj["mode"], obj["wait"], tl)
+    tr, got = rc.agree_trace(hs, obj["mode"], obj["wait"], tl, obj.get("fault_at_poll"))
     for h in hs.values():
         h.shutdown()
     print("mode=%s wait=%.2fs" % (obj["mode"], obj["wait"] * rc.TICK))
